@@ -274,6 +274,11 @@ class TimeCachingAdapter(Adapter, NoBranchAdapter, ABC):
             else:
                 self._total_mem -= d[1].nbytes
 
+    @property
+    def _packed_units(self):
+        # buffered data is pulled from the source, so it has the input units
+        return self._input_info.units
+
     def _finalize(self):
         """Removes data files that were stored on disk due to the memory limit."""
         for _t, d in self.data:
